@@ -115,6 +115,14 @@ func (bc *boundsChecker) Run(ruleB, ruleD string, fns []*ssa.Function) {
 						} else {
 							bc.s.Violation(ruleB, key, m.InstrPos(in), "make([]T, %s): length not proven non-negative on every path; a negative length panics", valueDesc(x.Len))
 						}
+						if ll := a.lin(x.Len); !onlyLengths(ll) && m.templateIntIn(x.Len) != "" {
+							keyU := fmt.Sprintf("%s|make len %s is capped", fnKey(fn), valueDesc(x.Len))
+							if a.ProveValLE(ll, countCap, getPt(in)) {
+								bc.s.OK(ruleB, keyU, m.InstrPos(in), "make length proven <= %d", int64(countCap))
+							} else {
+								bc.s.Violation(ruleB, keyU, m.InstrPos(in), "make([]T, %s): the length is not made of lengths of existing values and has no upper bound on some path (not proven <= %d); an oversized length panics (makeslice: len out of range)", valueDesc(x.Len), int64(countCap))
+							}
+						}
 					}
 				case ssa.CallInstruction:
 					bc.checkCall(ruleB, fn, a, x, getPt(in))
@@ -354,6 +362,101 @@ func (bc *boundsChecker) checkSlice(rule string, fn *ssa.Function, a *Arith, x *
 		valueDesc(x.X), optDesc(x.Low), optDesc(x.High), fnKey(fn), strings.Join(need, ", "))
 }
 
+// countCap: the largest count accepted as "capped" for an allocation whose size is a count taken from a value.
+const countCap = 1<<31 - 1
+
+// templateIntIn: does v derive from an integer or float held in a template value (the Value field of object.Int /
+// object.Float: literals of the template, numbers of the data, results of arithmetic)? Followed through conversions,
+// arithmetic, phis, min/max, parameters (to what the callers pass) and the results of module functions. Returns a
+// description of the source, "" when none is found.
+func (m *Model) templateIntIn(v ssa.Value) string {
+	seen := map[ssa.Value]bool{}
+	var walk func(v ssa.Value, d int) string
+	walk = func(v ssa.Value, d int) string {
+		if v == nil || seen[v] || d > 12 {
+			return ""
+		}
+		seen[v] = true
+		switch x := v.(type) {
+		case *ssa.Convert:
+			return walk(x.X, d+1)
+		case *ssa.ChangeType:
+			return walk(x.X, d+1)
+		case *ssa.BinOp:
+			if r := walk(x.X, d+1); r != "" {
+				return r
+			}
+			return walk(x.Y, d+1)
+		case *ssa.Phi:
+			for _, e := range x.Edges {
+				if r := walk(e, d+1); r != "" {
+					return r
+				}
+			}
+		case *ssa.UnOp:
+			if x.Op == token.MUL {
+				if fa, ok := x.X.(*ssa.FieldAddr); ok && fieldName(fa.X.Type(), fa.Field) == "Value" {
+					tn := derefTypeString(fa.X.Type())
+					if strings.HasSuffix(tn, "object.Int") || strings.HasSuffix(tn, "object.Float") {
+						return tn[strings.LastIndex(tn, "/")+1:] + ".Value"
+					}
+				}
+				return ""
+			}
+			return walk(x.X, d+1)
+		case *ssa.Extract:
+			return walk(x.Tuple, d+1)
+		case *ssa.Parameter:
+			for _, r := range m.resolveUp(x, nil, 0) {
+				if _, still := r.(*ssa.Parameter); still {
+					continue
+				}
+				if s := walk(r, d+1); s != "" {
+					return s
+				}
+			}
+		case *ssa.Call:
+			if b, isB := x.Call.Value.(*ssa.Builtin); isB && (b.Name() == "max" || b.Name() == "min") {
+				for _, a := range x.Call.Args {
+					if r := walk(a, d+1); r != "" {
+						return r
+					}
+				}
+				return ""
+			}
+			if sc := x.Call.StaticCallee(); sc != nil && m.InModule(sc) && sc.Blocks != nil {
+				for _, b := range sc.Blocks {
+					if ret, ok := b.Instrs[len(b.Instrs)-1].(*ssa.Return); ok {
+						for _, rv := range ret.Results {
+							if isInteger(rv.Type()) {
+								if r := walk(rv, d+1); r != "" {
+									return r
+								}
+							}
+						}
+					}
+				}
+			}
+		}
+		return ""
+	}
+	return walk(v, 0)
+}
+
+// onlyLengths: the linear form is a constant plus lengths of existing values (len:, buflen: atoms) with positive
+// coefficients — such a size is bounded by memory that is already allocated.
+func onlyLengths(l Lin) bool {
+	for k, c := range l.T {
+		if c == 0 {
+			continue
+		}
+		if !(strings.HasPrefix(k, "len:") || strings.HasPrefix(k, "buflen:")) {
+			return false
+		}
+	}
+	return true
+}
+
 func optDesc(v ssa.Value) string {
 	if v == nil {
 		return ""
@@ -378,6 +481,16 @@ func (bc *boundsChecker) checkCall(rule string, fn *ssa.Function, a *Arith, site
 			bc.s.OK(rule, key, m.InstrPos(site), "count proven >= 0")
 		} else {
 			bc.s.Violation(rule, key, m.InstrPos(site), "strings.Repeat(_, %s) in %s: count not proven non-negative on every path; a negative count panics", valueDesc(n), fnKey(fn))
+		}
+		// an oversized count panics as well ("Repeat output length overflow", or makeslice: len out of range in the
+		// builder): the count is capped — proven at most countCap on every path, or made of lengths of existing values
+		keyU := fmt.Sprintf("%s|strings.Repeat count %s is capped", fnKey(fn), valueDesc(n))
+		if src := m.templateIntIn(n); src == "" {
+			bc.s.OK(rule, keyU, m.InstrPos(site), "the count does not derive from an integer of the template or the data (lengths, constants, nesting depth)")
+		} else if onlyLengths(a.lin(n)) || a.ProveValLE(a.lin(n), countCap, pt) {
+			bc.s.OK(rule, keyU, m.InstrPos(site), "count (from %s) proven <= %d", src, int64(countCap))
+		} else {
+			bc.s.Violation(rule, keyU, m.InstrPos(site), "strings.Repeat(_, %s) in %s: the count has no upper bound on some path (not proven <= %d): a count taken from the template or the data that makes the result longer than the address space panics (strings: Repeat output length overflow / makeslice: len out of range)", valueDesc(n), fnKey(fn), int64(countCap))
 		}
 	case "(*bytes.Buffer).Truncate":
 		n := com.Args[1]
